@@ -446,12 +446,6 @@ def main():
                 if root.flags.owndata:
                     reg_alloc(root, root)
             if not tr.quiet:
-                if isinstance(owner, np.ndarray) and isinstance(owner.base, np.ndarray):
-                    # a constituent array of an element type the MLIR runtime re-views (complex64/128, float16): the object that
-                    # gets the keep-alive is `raw.view(dtype)`; NumPy bases every further view on `raw`
-                    r = tr.role_of(owner)
-                    tr.name(owner.base, "raw:" + r)
-                    tr.events.append(["cast", r])
                 tr.events.append(["hold", tr.role_of(owner), tr.role_of(obj)])
                 held.append((weakref.ref(owner), weakref.ref(obj)))
             return orig_hold(owner, obj)
@@ -469,7 +463,23 @@ def main():
                 problems.append("free() of a buffer owned by another object attempted (prevented by the harness)")
             return r
 
-        F._hold_ref, F.free_memref = hold, free
+        orig_m2n = F.ranked_memref_to_numpy
+
+        def memref_to_numpy(ref):
+            """names the pair of objects the MLIR runtime makes for an element type it re-views (complex64/128, float16):
+            `raw` (the raw-pointer array) and `raw.view(dtype)` (what get_constituent_arrays returns; NumPy bases every further
+            view on `raw`).  Which of the two gets the keep-alive is what the `_hold_ref` log shows."""
+            arr = orig_m2n(ref)
+            if not tr.quiet and isinstance(arr.base, np.ndarray):
+                r = tr.role_of(arr)
+                root = arr
+                while isinstance(root.base, np.ndarray):
+                    root = root.base
+                tr.name(root, "raw:" + r)
+                tr.events.append(["cast", r])
+            return arr
+
+        F._hold_ref, F.free_memref, F.ranked_memref_to_numpy = hold, free, memref_to_numpy
         GUARD["ranges"] = []
         GUARD["invalid"] = []
         GUARD["shared"] = {}
@@ -572,6 +582,14 @@ def main():
             del st
             return nfields
 
+        def held_view(ev, src=None):
+            """for a `_hold_ref(<constituent array or the raw array underneath it>, storage)` event whose array has no name yet:
+            the (anonymous) role of the constituent array, else None"""
+            if ev[0] != "hold" or not ev[2].startswith("storage:") or (src is not None and ev[2] != f"storage:{src}"):
+                return None
+            r = ev[1][4:] if ev[1].startswith("raw:") else ev[1]
+            return r if r.startswith("anon") else None
+
         def name_copy_objects(new, src):
             """`Array.copy()`: the copies the new storage holds and the views of the source they were made from"""
             k = 0
@@ -581,8 +599,9 @@ def main():
                     k += 1
             k = 0
             for ev in list(tr.events):
-                if ev[0] == "hold" and ev[1].startswith("anon") and ev[2] == f"storage:{src}":
-                    tr.rename(ev[1], f"view:copy-{new}:{k}")
+                r = held_view(ev, src)
+                if r:
+                    tr.rename(r, f"view:copy-{new}:{k}")
                     k += 1
 
         try:
@@ -704,8 +723,9 @@ def main():
                     env[st[1]] = a
                     tr.name(a, f"np:{st[1]}")
                     for ev in list(tr.events):   # the single array of get_constituent_arrays() (it may be gone already)
-                        if ev[0] == "hold" and ev[1].startswith("anon") and ev[2].startswith("storage:"):
-                            tr.rename(ev[1], f"view:{st[1]}:data")
+                        r = held_view(ev)
+                        if r:
+                            tr.rename(r, f"view:{st[1]}:data")
                     base = a.base
                     if base is not None:
                         tr.events.append(["base", f"np:{st[1]}", tr.role.get(id(base), type(base).__name__)])
@@ -721,8 +741,9 @@ def main():
                     tr.name(m, f"scipy:{st[1]}")
                     k = 0
                     for ev in list(tr.events):   # the arrays of get_constituent_arrays(), in order
-                        if ev[0] == "hold" and ev[1].startswith("anon") and ev[2] == f"storage:{st[2]}":
-                            tr.rename(ev[1], f"view:{st[1]}:{k}")
+                        r = held_view(ev, st[2])
+                        if r:
+                            tr.rename(r, f"view:{st[1]}:{k}")
                             k += 1
                     info["nviews"] = k
                     comps = []
@@ -789,7 +810,7 @@ def main():
             tr.events = []
             return {"trace": trace, "dels": dels, "problems": problems, "untracked": untracked}
         finally:
-            F._hold_ref, F.free_memref = orig_hold, guarded_free
+            F._hold_ref, F.free_memref, F.ranked_memref_to_numpy = orig_hold, guarded_free, orig_m2n
             GUARD["ranges"] = []
 
     handlers = {"roundtrip": t_roundtrip, "to_numpy_order": t_to_numpy_order, "op": t_op, "determine": t_determine,
